@@ -168,7 +168,7 @@ auto whenAllTuple(Invoker& invoker, Futures&&... futures)
 
   // TODO(bbudge): Can write something faster than make_shared using SmallBufferAllocator.
   auto shared =
-      std::make_shared<detail::WhenAllSharedTuple<TupleType>>(std::forward<Futures>(futures)...);
+      detail::make_shared<detail::WhenAllSharedTuple<TupleType>>(std::forward<Futures>(futures)...);
 
   auto whenComplete = [shared]() -> TupleType {
     forEach(shared->tuple, [&shared](auto& future) {
@@ -211,7 +211,7 @@ whenAllIterators(Invoker& invoker, InputIt first, InputIt last) {
   }
 
   // TODO(bbudge): Can write something faster than make_shared using SmallBufferAllocator.
-  auto shared = std::make_shared<detail::WhenAllSharedVec<VecType>>(first, last);
+  auto shared = detail::make_shared<detail::WhenAllSharedVec<VecType>>(first, last);
 
   auto whenComplete = [shared]() -> VecType {
     for (auto& f : shared->vec) {
@@ -245,7 +245,7 @@ auto whenAnyTuple(Invoker& invoker, Futures&&... futures) -> Future<size_t> {
   using ResultFuture = Future<size_t>;
 
   auto shared =
-      std::make_shared<detail::WhenAnySharedTuple<TupleType>>(std::forward<Futures>(futures)...);
+      detail::make_shared<detail::WhenAnySharedTuple<TupleType>>(std::forward<Futures>(futures)...);
 
   auto whenComplete = [shared]() -> size_t {
     size_t w = shared->winner.load(std::memory_order_acquire);
@@ -301,7 +301,7 @@ Future<size_t> whenAnyIterators(Invoker& invoker, InputIt first, InputIt last) {
     return make_ready_future(static_cast<size_t>(SIZE_MAX));
   }
 
-  auto shared = std::make_shared<detail::WhenAnySharedVec<VecType>>(first, last);
+  auto shared = detail::make_shared<detail::WhenAnySharedVec<VecType>>(first, last);
 
   auto whenComplete = [shared]() -> size_t {
     size_t w = shared->winner.load(std::memory_order_acquire);
